@@ -24,25 +24,39 @@ case "$TESTS" in *"412 passed"*) if [ $CLEAN -eq 0 ] && [ $MUT -ne 0 ]; then CON
 cd /verif
 REPO=${SEED_REPO:-/repo}
 git -C $REPO apply $OUT/patch.diff || { echo "patch does not apply to $REPO"; exit 2; }
-RES=""
+rm -f $OUT/check_*.txt
 for P in $PROP $EXTRA; do
-  FUNC_ADL_REPO=$REPO ./check $P quick > /tmp/seed_check.$$ 2>&1; RC=$?
-  NV=$(grep -c '^VIOLATION' /tmp/seed_check.$$)
-  KIND=$(grep '^VIOLATION' /tmp/seed_check.$$ | grep -c 'no-failing-input-found')
-  FIRST=$(grep -A1 '^VIOLATION' /tmp/seed_check.$$ | sed -n 2p | cut -c1-300 | sed 's/"/\\"/g')
-  echo "check $P: exit=$RC violations=$NV (no-failing-input-found: $KIND)  $FIRST"
-  RES="$RES{\"property\": \"$P\", \"exit\": $RC, \"violation_lines\": $NV, \"of_which_no_failing_input\": $KIND, \"first\": \"$FIRST\"},"
+  FUNC_ADL_REPO=$REPO ./check $P quick > $OUT/check_$P.txt 2>&1; echo "exit=$?" >> $OUT/check_$P.txt
+  echo "check $P: $(tail -1 $OUT/check_$P.txt) violations=$(grep -c '^VIOLATION' $OUT/check_$P.txt)  $(grep -A1 '^VIOLATION' $OUT/check_$P.txt | sed -n 2p | cut -c1-200)"
 done
 git -C $REPO checkout -- .
-cat > $OUT/meta.json <<EOF
-{
- "breaks_property": "$PROP",
- "source": "written by an independent sub-agent given only the property text and a scratch worktree",
- "confirmed_in_scratch_worktree": $CONFIRMED,
- "confirmation": {"demo_exit_clean": $CLEAN, "demo_exit_mutated": $MUT, "test_suite_with_change": "$TESTS"},
- "ran": "git -C /repo apply seeded/$NAME/patch.diff; ./check <P> quick; git -C /repo checkout -- .",
- "checks": [${RES%,}],
- "needs_to_manifest": "see NOTES in this directory"
-}
-EOF
+/venv/bin/python - "$OUT" "$PROP" "$NAME" "$CONFIRMED" "$CLEAN" "$MUT" "$TESTS" <<'PY'
+import glob, json, os, re, sys
+out, prop, name, confirmed, clean, mut, tests = sys.argv[1:8]
+checks = []
+for f in sorted(glob.glob(os.path.join(out, "check_*.txt"))):
+    txt = open(f, errors="replace").read()
+    lines = txt.splitlines()
+    viol = [i for i, l in enumerate(lines) if l.startswith("VIOLATION")]
+    first = lines[viol[0] + 1].strip()[:400] if viol and viol[0] + 1 < len(lines) else ""
+    m = re.search(r"exit=(\d+)\s*$", txt)
+    checks.append({"property": os.path.basename(f)[6:-4], "exit": int(m.group(1)) if m else -1, "violation_lines": len(viol),
+                   "of_which_no_failing_input": sum(1 for i in viol if "no-failing-input-found" in lines[i]), "first": first})
+    os.remove(f)
+meta = {"breaks_property": prop,
+        "source": "written by an independent sub-agent given only the property text and a scratch worktree",
+        "confirmed_in_scratch_worktree": confirmed == "true",
+        "confirmation": {"demo_exit_clean": int(clean), "demo_exit_mutated": int(mut), "test_suite_with_change": tests},
+        "ran": "git -C <repo> apply seeded/%s/patch.diff; ./check <P> quick; git -C <repo> checkout -- .   (<repo> = /repo, or a worktree of /repo's HEAD via FUNC_ADL_REPO)" % name,
+        "checks": checks}
+old = os.path.join(out, "meta.json")
+if os.path.exists(old):
+    try:
+        prev = json.load(open(old))
+        if prev.get("history"):
+            meta["history"] = prev["history"]
+    except Exception:
+        pass
+json.dump(meta, open(old, "w"), indent=1)
+PY
 rm -f /tmp/seed_*.$$ /tmp/seed_demo.$$.py
